@@ -880,6 +880,7 @@ func ruleLCSDiagonal(c *Ctx) {
 			}
 			// field stores of the new cell
 			var rowN, idxN, rowP, idxP ssa.Value
+			stepK := int64(1)
 			for _, r := range *al.Referrers() {
 				fa, ok := r.(*ssa.FieldAddr)
 				if !ok {
@@ -890,11 +891,12 @@ func ruleLCSDiagonal(c *Ctx) {
 					if !ok || fs.Addr != ssa.Value(fa) {
 						continue
 					}
-					if bo, ok := fs.Val.(*ssa.BinOp); ok && bo.Op == token.ADD && isConstInt(bo.Y, 1) {
+					if bo, ok := fs.Val.(*ssa.BinOp); ok && bo.Op == token.ADD && isAnyConstInt(bo.Y) {
 						if fl := load(bo.X); fl != nil {
 							if fa2, ok := fl.(*ssa.FieldAddr); ok && fa2.Field == fa.Field {
 								if r0, i0, ok := cellOf(fa2.X); ok {
 									rowN, idxN = r0, i0
+									stepK, _ = constInt(bo.Y)
 								}
 							}
 						}
@@ -909,6 +911,9 @@ func ruleLCSDiagonal(c *Ctx) {
 				continue
 			}
 			var probs []string
+			if stepK != 1 {
+				probs = append(probs, fmt.Sprintf("a match extends the chain by one element but the recorded length grows by %d: the result is allocated (and filled from the back) for a length the chain does not have", stepK))
+			}
 			if rowN != rowP || ksym(idxN) != ksym(idxP) {
 				probs = append(probs, fmt.Sprintf("the length extends cell %s[%s] but the back pointer is cell %s[%s]: the recorded length is not the length of the chain walked back", ksym(rowN), ksym(idxN), ksym(rowP), ksym(idxP)))
 			}
@@ -964,4 +969,9 @@ func fromParam(v ssa.Value, p *ssa.Parameter) bool {
 		}
 	}
 	return false
+}
+
+func isAnyConstInt(v ssa.Value) bool {
+	_, ok := constInt(v)
+	return ok
 }
